@@ -624,29 +624,28 @@ func c20StateSkeleton(c *core.Ctx, r *core.Report) {
 			r.Check(okN, "STATE", construct, c.Pos(call.Pos()), "Normal notification on the not-matched branch", "a notification with a constant state is attempted outside the not-matched branch")
 			continue
 		}
-		// dominated by `st == Firing`
-		okF := false
-		for b := call.Block(); b != nil && b.Idom() != nil; b = b.Idom() {
-			idom := b.Idom()
-			ifi, ok := core.LastIf(idom)
-			if !ok || idom.Succs[0] != b || len(b.Preds) != 1 {
-				continue
-			}
-			if bo, ok := ifi.Cond.(*ssa.BinOp); ok && bo.Op == token.EQL {
-				kx, okx := core.ConstIntValue(bo.Y)
-				if bo.X == st && okx && kx == firing {
-					okF = true
-				}
-				ky, oky := core.ConstIntValue(bo.X)
-				if bo.Y == st && oky && ky == firing {
-					okF = true
-				}
+		// the computed state is passed: the values it may hold at the call (its constants, narrowed by the tests
+		// of it on the way: `if st == Firing {..}`, `if st == Firing || st == Normal {..}`, `if st != Pending`)
+		// are Firing, or Normal, and nothing else
+		set := core.ConstSets(st)[call.Block()]
+		okF := len(set) > 0
+		for k := range set {
+			if k != firing && k != normal {
+				okF = false
 			}
 		}
-		if okF {
+		if set[normal] {
+			sawNormal = true
+		}
+		if set[firing] {
 			sawFiring = true
 		}
-		r.Check(okF, "STATE", construct, c.Pos(call.Pos()), "notification with the computed state, only where it equals Firing", "a notification is attempted for a state that is not known to be Firing (e.g. Pending)")
+		if okF && !set[firing] {
+			// a notification of the computed state that can only be Normal is fine as well
+			r.OK("STATE", construct, c.Pos(call.Pos()), "notification with the computed state, only where it is Normal")
+			continue
+		}
+		r.Check(okF, "STATE", construct, c.Pos(call.Pos()), "notification with the computed state, only where it is Firing (or Normal)", "a notification is attempted for a state that is not known to be Firing or Normal (e.g. Pending)")
 	}
 	r.Check(sawFiring, "STATE", "alertsHandler.handleAlertCondition:Firing-notifies", c.Pos(fn.Pos()), "entering Firing attempts a notification", "no notification is attempted when the alert fires")
 	r.Check(sawNormal, "STATE", "alertsHandler.handleAlertCondition:Normal-notifies", c.Pos(fn.Pos()), "returning to Normal attempts a notification", "no notification is attempted when the alert returns to Normal")
@@ -694,7 +693,7 @@ func c20StateSkeleton(c *core.Ctx, r *core.Report) {
 	checkBeforeSuccessReturn(c, r, uf, "updateAlertState", directPred(objs(updState)), "a success return without the state update leaves the alert in its previous state")
 	createHist := func(ci ssa.CallInstruction) bool {
 		f := core.CalleeFunc(ci)
-		return f != nil && f.Name() == "CreateAlertHistory"
+		return f != nil && c.BaseName(f) == "CreateAlertHistory"
 	}
 	checkBeforeSuccessReturn(c, r, uf, "CreateAlertHistory", createHist, "a success return without a history row: the next window test misses this outcome")
 	okSt := false
@@ -927,7 +926,7 @@ func c20Window(c *core.Ctx, r *core.Report) {
 	okID := false
 	if idv != nil {
 		for _, o := range c.Origins(idv, 0) {
-			if o.Kind == "field" && o.Obj != nil && o.Obj.Name() == "AlertId" {
+			if o.Kind == "field" && o.Obj != nil && c.BaseName(o.Obj) == "AlertId" {
 				okID = true
 			}
 		}
@@ -1252,6 +1251,10 @@ func c20Notify(c *core.Ctx, r *core.Report) {
 		if bo.Y == ssa.Value(cur) {
 			supSame = true
 		}
+		// under `cur == Normal` the constant Normal is the current state
+		if k, ok := core.ConstIntValue(bo.Y); ok && k == normal {
+			supSame = true
+		}
 	}
 	r.Check(supInactive && supSame, "GUARD", name+":Normal-after-Normal-or-Inactive-is-not-notified", c.Pos(fn.Pos()), "a Normal outcome is notified only after a Firing notification", "a Normal outcome is notified although the last notified state was already Normal (or nothing was ever notified): `once on return to Normal` is lost")
 
@@ -1310,7 +1313,33 @@ func c20Notify(c *core.Ctx, r *core.Report) {
 		errv, _ := errResultOf(hcall)
 		construct := fmt.Sprintf("alertsHandler.NotifyAlertHandlerRequest:sent-is-answered-only-where-%s-succeeded", h.Name())
 		if errv == nil {
-			r.Undecided("DEPENDS", construct, c.Pos(hcall.Pos()), "the delivery helper reports no error")
+			// the helper answers with a boolean (`somebody was reached`): `sent` may be answered only where
+			// that boolean is known true, or by handing the boolean itself on
+			if bt, isB := hcall.Type().Underlying().(*types.Basic); isB && bt.Info()&types.IsBoolean != 0 {
+				var bad *ssa.Return
+				core.WalkForwardEdges(nf, hcall, func(in ssa.Instruction) bool {
+					if ret, ok := in.(*ssa.Return); ok && bad == nil {
+						res := core.RetResult(ret, 0)
+						if k, isK := res.(*ssa.Const); isK && k.Value != nil && k.Value.String() == "false" {
+							return true
+						}
+						if res == ssa.Value(hcall) || core.BoolKnownAt(hcall, ret.Block()) == core.Yes {
+							return true
+						}
+						bad = ret
+					}
+					return true
+				}, func(from, to *ssa.BasicBlock) bool {
+					return core.BoolKnownAt(hcall, to) != core.Yes
+				})
+				if bad != nil {
+					r.Violation("DEPENDS", construct, c.Pos(bad.Pos()), "where the delivery helper answered that no recipient was reached the notifier can still answer that the notification was sent: the caller stores last_sent_time / last_alert_state for a notification nobody received, the cool-down starts, the Firing notification is never delivered and a later back-to-Normal is announced for a Firing nobody saw")
+				} else {
+					r.OK("DEPENDS", construct, c.Pos(hcall.Pos()), "`sent` is answered only on the edge where the delivery helper answered true")
+				}
+				continue
+			}
+			r.Undecided("DEPENDS", construct, c.Pos(hcall.Pos()), "the delivery helper reports neither an error nor a boolean")
 			continue
 		}
 		var bad *ssa.Return
@@ -1468,7 +1497,7 @@ func c20Stores(c *core.Ctx, r *core.Report) {
 	writeFolder := c.Obj(pkgDash, "writeFolderStructure")
 	readFolder := c.Obj(pkgDash, "readFolderStructure")
 	readCombined := c.Obj(pkgDash, "readCombinedFolderStructure")
-	writeAlias, removeAlias := c.Obj(pkgVtable, "writeAliasFile"), c.Obj(pkgVtable, "removeAliasFile")
+	aliasFS := findAliasFiles(c)
 	putAlias := c.Obj(pkgVtable, "putAliasToIndexInMem")
 	itemsF, orderF := c.Field(pkgDash, "FolderStructure.Items"), c.Field(pkgDash, "FolderStructure.Order")
 	osRemove := c.ExtObj("os", "Remove")
@@ -1528,7 +1557,7 @@ func c20Stores(c *core.Ctx, r *core.Report) {
 				return ok && core.IsCallTo(ci, putAlias)
 			},
 			persist: func(ci ssa.CallInstruction) bool {
-				return core.IsCallTo(ci, writeAlias) || core.IsCallTo(ci, removeAlias)
+				return aliasFS.isChange(ci)
 			},
 			exempt: map[string]string{
 				"putAliasToIndexInMem":      "the table's own setter; its callers carry the obligation",
@@ -1543,7 +1572,7 @@ func c20Stores(c *core.Ctx, r *core.Report) {
 			if core.FnPkgPath(fn) != core.ModPath+"/"+sp.pkg {
 				continue
 			}
-			if _, ex := sp.exempt[fn.Name()]; ex {
+			if _, ex := sp.exempt[c.BaseName(fn.Object())]; ex {
 				continue
 			}
 			mustP := func(ci ssa.CallInstruction) bool {
@@ -1660,7 +1689,13 @@ func c20Stores(c *core.Ctx, r *core.Report) {
 		pkgUsq:     nil,
 		pkgDash:    nil,
 		pkgLookups: nil,
-		pkgVtable:  {"writeAliasFile": true},
+		pkgVtable:  {},
+	}
+	// of pkg/virtualtable only the functions writing an alias file (writeAliasFile today; found by effect)
+	for h, kinds := range aliasFS.hosts {
+		if kinds["write"] {
+			scopeFns[pkgVtable][h.Name()] = true
+		}
 	}
 	nRep := 0
 	count := map[string]int{}
@@ -1773,6 +1808,27 @@ func pathShape(c *core.Ctx, v ssa.Value) []string {
 			if _, ok := x.X.(*ssa.Parameter); ok {
 				out = append(out, "<*"+x.Type().String()+">")
 				return
+			}
+			// a parameter whose address is taken somewhere in the function lives in a cell: the load of that
+			// cell is the parameter as long as the parameter is the only value ever stored there
+			if al, ok := x.X.(*ssa.Alloc); ok {
+				var par *ssa.Parameter
+				only := true
+				if refs := al.Referrers(); refs != nil {
+					for _, rf := range *refs {
+						if st, ok := rf.(*ssa.Store); ok && st.Addr == ssa.Value(al) {
+							if p, ok := st.Val.(*ssa.Parameter); ok && par == nil {
+								par = p
+							} else {
+								only = false
+							}
+						}
+					}
+				}
+				if par != nil && only {
+					out = append(out, "<"+par.Type().String()+">")
+					return
+				}
 			}
 			out = append(out, "?")
 		case *ssa.Phi:
@@ -1978,7 +2034,7 @@ func c20SamePath(c *core.Ctx, r *core.Report) {
 	}
 	cnt := map[string]int{}
 	forFileCalls(pkgUsq, func(fn *ssa.Function, ci ssa.CallInstruction, api string) {
-		if fn.Name() == "ReadExternalUSQInfo" {
+		if c.BaseName(fn.Object()) == "ReadExternalUSQInfo" {
 			return // reads a file named by its caller (another node's saved queries), not this node's store
 		}
 		nUsq++
@@ -2061,8 +2117,21 @@ func c20SamePath(c *core.Ctx, r *core.Report) {
 	// alias files: the three builders agree piece by piece
 	var ref []string
 	refName := ""
-	for _, name := range []string{"GetAliases", "writeAliasFile", "removeAliasFile"} {
-		fn := c.Fn(pkgVtable, name)
+	// the functions touching an alias file are found by effect (read, write and remove primitives below the
+	// alias directory); all three kinds must be present
+	aliasFS := findAliasFiles(c)
+	var aliasHosts []*ssa.Function
+	kindsSeen := map[string]bool{}
+	for h, kinds := range aliasFS.hosts {
+		aliasHosts = append(aliasHosts, h)
+		for k := range kinds {
+			kindsSeen[k] = true
+		}
+	}
+	sort.Slice(aliasHosts, func(i, j int) bool { return aliasHosts[i].Name() < aliasHosts[j].Name() })
+	r.Floor("SAMEPATH", "kinds of alias file access found (read, write, remove)", len(kindsSeen), 3)
+	for _, fn := range aliasHosts {
+		name := fn.Name()
 		var shape []string
 		found := false
 		// the file access is in the function itself or in a helper of the package it calls; the name is built
@@ -2211,11 +2280,16 @@ func c20AliasRoles(c *core.Ctx, r *core.Report) {
 		c.Obj(pkgVtable, "RemoveAliases"):         {params: []int{rIndex, rNone, rNone}},
 		c.Obj(pkgVtable, "GetAliases"):            {params: []int{rIndex, rNone}, results: []int{rAliasSet, rNone}},
 		c.Obj(pkgVtable, "GetAliasesAsArray"):     {params: []int{rIndex, rNone}},
-		c.Obj(pkgVtable, "writeAliasFile"):        {params: []int{rIndex, rAliasSet, rNone}},
-		c.Obj(pkgVtable, "removeAliasFile"):       {params: []int{rIndex, rNone}},
 		c.Obj(pkgVtable, "putAliasToIndexInMem"):  {params: []int{rAlias, rIndex, rNone}},
 		c.Obj(pkgVtable, "GetIndexNameFromAlias"): {params: []int{rAlias, rNone}, results: []int{rIndex, rNone}},
 		c.Obj(pkgVtable, "IsAlias"):               {params: []int{rAlias, rNone}, results: []int{rNone, rIndex}},
+	}
+	// the private file helpers exist only as long as nobody inlines them
+	if o := c.TryObj(pkgVtable, "writeAliasFile"); o != nil {
+		api[o] = sig{params: []int{rIndex, rAliasSet, rNone}}
+	}
+	if o := c.TryObj(pkgVtable, "removeAliasFile"); o != nil {
+		api[o] = sig{params: []int{rIndex, rNone}}
 	}
 	// role of a value, by backward inspection
 	var roleOf func(v ssa.Value, depth int) int
